@@ -23,6 +23,8 @@ from vcheck import coq_list, coq_string
 
 HERE = os.path.dirname(os.path.dirname(os.path.abspath(__file__)))
 CORPUS = os.path.join(HERE, "corpus", "C05", "witnesses.jsonl")
+FINDINGS_CORPUS = os.path.join(HERE, "corpus", "C05", "findings.jsonl")
+AMPLIFICATION = "decompression-amplification"
 PHRASES = os.path.join(HERE, "coq", "gen", "GenGoroutinesWriter.json")
 
 OUTCOME = {"2xx": "O2xx", "4xx": "O4xx", "5xx": "O5xx", "crash": "OCrash", "hang": "OHang", "leak": "OLeak", "abort": "OAbort"}
@@ -299,6 +301,13 @@ def run_harness(ck):
                 ck.obligation("harness ingestfuzz ran the corpus", False, out[-1500:])
                 return
             cases += load(outp)
+        if os.path.exists(FINDINGS_CORPUS) and AMPLIFICATION in ck.known_findings():
+            outp = os.path.join(ck.work, "findings_out.jsonl")
+            rc, out = ck.go_run("ingestfuzz", ["--cases", FINDINGS_CORPUS, "--out", outp, "--deadline-ms", 20000], timeout=600)
+            if rc != 0:
+                ck.obligation("harness ingestfuzz ran the witnesses of the open finding", False, out[-1500:])
+                return
+            cases += load(outp)
         n = ck.n(600, 15000)
         nb = ck.n(2000, 50000)
         ng = ck.n(400, 10000)
@@ -328,6 +337,27 @@ def run_harness(ck):
         mism += m
         viol += v
     byid = {c["id"]: c for c in cases}
+    # open finding: a small gzip body that expands about 1000:1 is read without limit.  Exactly the witnesses of
+    # corpus/C05/findings.jsonl, and only when the allocation clause is the ONLY thing spec_ok objects to
+    # (answered, canary served), are reported as KNOWN-FINDING; everything else stays a violation.
+    known = ck.known_findings()
+    amp = [c for c in cases if c["class"].startswith("corpus/finding-" + AMPLIFICATION)]
+    if amp and AMPLIFICATION in known:
+        hit = []
+        for c in amp:
+            o = c["obs"]
+            only_alloc = (o["outcome"] in ("2xx", "4xx", "5xx") and o.get("canary", "") in ("", "2xx")
+                          and any(k == "Content-Encoding" and v == "gzip" for k, v in c["req"].get("headers", []))
+                          and int(o.get("alloc_kb", 0)) > 65536 + 64 * (int(o.get("body_len", 0)) // 1024))
+            if c["id"] in viol and only_alloc:
+                viol.remove(c["id"])
+                hit.append(c)
+        if hit:
+            w = max(hit, key=lambda c: c["obs"]["alloc_kb"] / max(1, c["obs"]["body_len"]))
+            ck.report_known(AMPLIFICATION, "POST %s Content-Encoding: gzip, body of %d bytes: %d KiB allocated while serving it (answered %s); %d witness(es)" % (
+                w["req"]["path"], w["obs"]["body_len"], w["obs"]["alloc_kb"], w["obs"].get("status"), len(hit)))
+        else:
+            ck.extra["finding_" + AMPLIFICATION] = "witnesses no longer exceed the allocation bound (fixed?): " + json.dumps([c["obs"] for c in amp])[:400]
     nstruct = sum(1 for c in cases if c["stream"] in ("struct", "generic"))
     ngeneric = sum(1 for c in cases if c["stream"] == "generic")
     nbytes = len(cases) - nstruct
